@@ -117,6 +117,42 @@ def acyclic_rules(chk, fx, rid):
                     % (len(rec), len(anys), len(direct), len(ors)), GR, dd['line'])
 
 
+class _Only:
+    """forwards only the obligations of one rule (used to share a rule with another property under another id)"""
+
+    def __init__(self, chk, src, dst):
+        self.chk, self.src, self.dst = chk, src, dst
+        self.analysed = {}
+        self.notes = []
+        self.lost = chk.lost
+
+    def rule(self, rid, text):
+        if rid == self.src:
+            self.chk.rule(self.dst, text)
+
+    def ok(self, rid, inst, sample=None):
+        if rid == self.src:
+            self.chk.ok(self.dst, inst, sample=sample)
+
+    def bad(self, rid, where, inst, msg, file=None, line=None, detail=None):
+        if rid == self.src:
+            self.chk.bad(self.dst, where, inst, msg, file, line)
+
+    def need(self, cond, msg):
+        return self.chk.need(cond, msg)
+
+    def floor(self, name, n, minimum):
+        if n < minimum:
+            self.chk.floor(name, n, minimum)
+
+    def count(self, name, n=1):
+        pass
+
+
+def edge_rule_as(chk, fx, rid):
+    import_rules(_Only(chk, 'C20-R8', rid), fx)
+
+
 def import_rules(chk, fx):
     chk.rule('C20-R3', 'each module is resolved once: in PackageBuilder::register the source of a module X is parsed (self.parse(&X)) and entered into self.asts only on paths where '
                        '`X == from_path || self.inlines.contains_key(&X) || self.asts.contains_key(&X)` was false (for the imported module and for its package root)')
@@ -131,11 +167,26 @@ def import_rules(chk, fx):
         return
     # --- R3 / R4
     seen_tests = {}
+    seen_locals = {}          # `let registered = X == from_path || inlines.contains_key(&X) || asts.contains_key(&X);`
+    for n in T.walk(reg['body']):
+        if n.get('k') == 'Let' and n.get('init') is not None and n['pat'].get('k') == 'Bind':
+            keys = [c for c in T.calls(n['init']) if c.get('k') == 'MCall' and c['n'] == 'contains_key' and T.show(T.peel(c['r'])).split('.')[-1] in ('asts', 'inlines')]
+            if keys and _local_arg(keys[0]):
+                seen_locals[n['pat']['n']] = (n['init'], _local_arg(keys[0]))
     for n in T.walk(reg['body']):
         if n.get('k') == 'If':
             keys = [c for c in T.calls(n['c']) if c.get('k') == 'MCall' and c['n'] == 'contains_key' and T.show(T.peel(c['r'])).split('.')[-1] in ('asts', 'inlines')]
             if keys and _local_arg(keys[0]):
                 seen_tests[_local_arg(keys[0])] = n
+            else:
+                c = T.peel(n['c'])
+                neg = False
+                if c.get('k') == 'Unary' and c.get('op') == '!':
+                    c, neg = T.peel(c['x']), True
+                if c.get('k') == 'Local' and c['n'] in seen_locals:
+                    init, X = seen_locals[c['n']]
+                    # normalise to the form `if <seen> { .. } else { .. }`
+                    seen_tests[X] = {'k': 'If', 'c': init, 't': n.get('e') or {'k': 'Block', 's': []}, 'e': n['t'], 'l': n['l'], '_orig': n, '_neg': True} if neg else dict(n, c=init)
     chk.floor('seen-tests in PackageBuilder::register', len(seen_tests), 2)
     for X, test in sorted(seen_tests.items()):
         ds = [T.show(x).replace(' ', '') for x in disjuncts(test['c'])]
@@ -152,6 +203,10 @@ def import_rules(chk, fx):
             return False
 
         def refine(cond, branch, st, test=test):
+            orig = test.get('_orig')
+            if orig is not None and cond is orig['c']:
+                # `if !seen { A }`: the then-branch is the not-seen path
+                return branch or st
             if cond is test['c']:
                 return (not branch) or st
             return None
@@ -197,6 +252,21 @@ def import_rules(chk, fx):
                     'an import cycle is followed without end' % (X, X), BP, b['l'])
         if not bad:
             chk.ok('C20-R4', X, sample='inc_ref(&from_path, %s) is tested before parse(&%s)' % (X, X))
+    # --- R8: the dependency edge of an import does not depend on who imported the module first
+    chk.rule('C20-R8', 'every importer records its own dependency edge: in PackageBuilder::register the call `graph.inc_ref(&from_path, X)` is not under the seen-test for X (the test '
+                       'says whether X was already *parsed*, by whoever came first); an importer without the edge is neither ordered after X nor joined with it, so whether its checks '
+                       'see X depends on the thread schedule')
+    for X, test in sorted(seen_tests.items()):
+        incs = [c for c in T.calls(reg['body']) if c.get('k') == 'MCall' and c['n'] == 'inc_ref' and _local_arg(c, 1) == X]
+        if not chk.need(incs, 'register: no inc_ref(&from_path, %s)' % X):
+            continue
+        orig = test.get('_orig', test)
+        inside = [c for c in incs if any(x is c for x in T.walk(orig['t'])) or (orig.get('e') is not None and any(x is c for x in T.walk(orig['e'])))]
+        if inside:
+            chk.bad('C20-R8', 'PackageBuilder::register', 'edge-under-seen-test:%s' % X, 'the dependency edge from_path -> %s is recorded only on one branch of the seen-test: a second importer '
+                    'of the same module gets no edge, is not ordered after it and does not join it (its diagnostics then depend on the schedule)' % X, BP, inside[0]['l'])
+        else:
+            chk.ok('C20-R8', X, sample='inc_ref(&from_path, %s) outside the seen-test' % X)
     acyclic_rules(chk, fx, 'C20-R5')
     # --- R7: the import scan does not stop at the first error
     for fname in ('GenericPackageBuilder::resolve', 'GenericPackageBuilder::check_import'):
